@@ -618,24 +618,41 @@ CMP_OPS = ("Eq", "Ne", "Lt", "Le", "Gt", "Ge")
 
 
 def _const_flags(fn):
-    """Names of user bool locals that are flags: every definition assigns a constant (at least two
-    of them), or the single definition is a comparison (`let matches = a == b;`)."""
+    """Boolean locals the dataflow follows as flags (user variables by name, temporaries as `_N`): every
+    definition is a constant, a comparison, the result of a bool-returning call, a copy of another bool
+    local or its negation.  `let cancelled = match state {A => false, B => true}`, `let same = a == b`,
+    `matches!(x, P)`, the result temporary of `a && b`, the return value of a spliced helper."""
     out = set()
+    named = {}
     for nm, l, pj in fn.var_places:
-        if pj or fn.locals[l]["ty"] != "bool" or l <= fn.arg_count:
-            continue
-        ds = fn.defs(l)
-        if len(ds) >= 2 and all(d[0] == "assign" and d[3]["k"] == "use" and d[3]["op"].get("k") == "const" for d in ds):
-            out.add(nm)
-        elif len(ds) == 1 and ds[0][0] == "assign" and ds[0][3]["k"] == "binop" and ds[0][3].get("op") in CMP_OPS:
-            out.add(nm)
-    # compiler temporaries of the same kind (`matches!(x, P)`, short-circuit `&&` / `||` results)
-    named = {l for nm, l, pj in fn.var_places if not pj}
+        if not pj:
+            named[l] = nm
+
+    def ok_def(d):
+        if d[0] == "call":
+            return True
+        if d[0] != "assign":
+            return False
+        rv = d[3]
+        if rv["k"] == "use":
+            return rv["op"].get("k") == "const" or (rv["op"].get("k") in ("copy", "move") and not rv["op"]["place"]["proj"] and fn.locals[rv["op"]["place"]["local"]]["ty"] == "bool")
+        if rv["k"] == "binop":
+            return rv.get("op") in CMP_OPS
+        if rv["k"] == "unop":
+            return rv.get("op") == "Not"
+        return False
+
     for l, loc in enumerate(fn.locals):
-        if l in named or l <= fn.arg_count or loc["ty"] != "bool" or loc.get("user"):
+        if l == 0 or l <= fn.arg_count or loc["ty"] != "bool":
             continue
         ds = fn.defs(l)
-        if len(ds) >= 2 and all(d[0] == "assign" and d[3]["k"] == "use" and d[3]["op"].get("k") == "const" for d in ds):
+        if not ds or not all(ok_def(d) for d in ds):
+            continue
+        if l in named:
+            # a user variable: a flag when it has several definitions, or one that is a constant / comparison
+            if len(ds) >= 2 or ds[0][0] == "assign" and ds[0][3]["k"] in ("binop",) or (ds[0][0] == "assign" and ds[0][3]["k"] == "use" and ds[0][3]["op"].get("k") in ("copy", "move")):
+                out.add(named[l])
+        elif len(ds) >= 2:
             out.add("_%d" % l)
     return out
 
@@ -725,6 +742,21 @@ class Flow:
                 vs = self._gen_value(rv)
                 if vs is not None:
                     worlds = frozenset(world_set(w, ("val", ps), vs) for w in worlds)
+                elif rv["k"] in ("use", "unop") and s["place"]["ty"] == "bool" and not s["place"]["proj"] and (rv.get("op") if rv["k"] == "use" else rv.get("a", {})).get("k") in ("copy", "move"):
+                    # a copy (or negation) of another boolean: carry its value over, world by world
+                    src_op = rv["op"] if rv["k"] == "use" else rv["a"]
+                    src = self.fn.place_str(src_op["place"])
+                    neg = rv["k"] == "unop" and rv.get("op") == "Not"
+                    if rv["k"] == "use" or neg:
+                        out = set()
+                        for w in worlds:
+                            v = dict(w).get(("val", src))
+                            if v is not None and v[0] and len(v[1]) == 1 and list(v[1])[0] in (0, 1):
+                                bit = list(v[1])[0]
+                                out.add(world_set(w, ("val", ps), (True, frozenset([1 - bit if neg else bit]))))
+                            else:
+                                out.add(w)
+                        worlds = frozenset(out)
                 elif rv["k"] == "binop" and rv.get("op") in CMP_OPS and s["place"]["ty"] == "bool" and not s["place"]["proj"]:
                     # a bound comparison: keep the flag correlated with the predicate it stands for
                     ei = self.eb.rvalue(rv)
